@@ -98,6 +98,10 @@ def edge_texts():
             ("class-main", "class nada_main:\n    pass\n"), ("unicode", "from nada_dsl import *\ndef nada_main():\n    x = 'héllo ✓'\n    return []\n"),
             ("tabs", "from nada_dsl import *\ndef nada_main():\n\tx = 1\n\treturn []\n"), ("crlf", "from nada_dsl import *\r\ndef nada_main():\r\n    return []\r\n"),
             ("only-syntax-errors", "def (:\n  ]]\n((\n"), ("unclosed", "from nada_dsl import *\ndef nada_main():\n    x = (1 +\n"),
+            ("lone-cr", "x = 1\ry = 2"), ("lone-cr-main", "from nada_dsl import *\rdef nada_main():\r    return []\r"), ("cr-cr-lf", "x = 1\r\r\ny = 2"),
+            ("lf-cr", "x = 1\n\ry = 2"), ("trailing-cr", "x = 1\r"), ("cr-in-string", "x = 'a\rb'"), ("form-feed", "x = 1\x0cy = 2"), ("nul", "x = 1\x00"),
+            ("bom", "\ufeffx = 1"), ("line-separator", "x = 1\u2028y = 2"), ("nel", "x = 1\x85y = 2"), ("file-separator", "x = 1\x1cy = 2"),
+            ("vertical-tab", "x = 1\x0by = 2"), ("surrogate", "x = '\ud800'"), ("long-line", "x = " + " + ".join(["1"] * 3000)), ("deep-parens", "x = " + "(" * 150 + "1" + ")" * 150),
             ("bad-indent", "from nada_dsl import *\ndef nada_main():\n  x = 1\n     y = 2\n    return []\n"), ("base", BASE)]
 
 
@@ -129,7 +133,61 @@ def mutations(rng, n):
     return out
 
 
+# ---- compositional family: every expression position of every statement template filled with every kind of expression
+PRELUDE = '''from nada_dsl import *
+
+def helper(x: SecretInteger, k: int) -> SecretInteger:
+    return x
+
+def nada_main():
+    p = Party(name="P")
+    a = SecretInteger(Input(name="a", party=p))
+    u = PublicInteger(Input(name="u", party=p))
+    n = 3
+    l = [1, 2, 3]
+    ll = [[1], [2]]
+    xs: list[SecretInteger] = []
+    BODY
+    return [Output(a, "o", p)]
+'''
+
+# (template, default fillers): {0}, {1}, {2} are expression holes
+TEMPLATES = [
+    ("x = {0}", ["a"]), ("x: int = {0}", ["1"]), ("x: SecretInteger = {0}", ["a"]), ("x: list[int] = {0}", ["l"]), ("x: {0} = 1", ["int"]),
+    ("l[{0}] = {1}", ["0", "1"]), ("ll[{0}][{1}] = {2}", ["0", "0", "1"]), ("xs[{0}] = {1}", ["0", "a"]), ("l.append({0})", ["1"]), ("xs.append({0})", ["a"]),
+    ("{0}.append({1})", ["l", "1"]), ("for i in range({0}):\n        y = {1}", ["n", "a"]), ("for i in {0}:\n        pass", ["range(2)"]),
+    ("x = [{0} for i in range({1})]", ["a", "2"]), ("x = [{0} for i in {1}]", ["i", "range(2)"]), ("x = {0}.if_else({1}, {2})", ["(a < u)", "a", "u"]),
+    ("x = helper({0}, {1})", ["a", "1"]), ("x = {0}({1})", ["helper", "a"]), ("x = Output({0}, {1}, {2})", ["a", "'o'", "p"]), ("return [{0}]", ["Output(a, 'o', p)"]),
+    ("return {0}", ["[Output(a, 'o', p)]"]), ("x = {0} + {1}", ["a", "u"]), ("x = {0} * {1}", ["a", "u"]), ("x = {0} < {1}", ["a", "u"]), ("x = {0} == {1}", ["a", "u"]),
+    ("x = -{0}", ["a"]), ("x = not {0}", ["True"]), ("x = {0} and {1}", ["True", "False"]), ("x = sum({0})", ["xs"]), ("x = str({0})", ["1"]), ("x = {0}[{1}]", ["l", "0"]),
+    ("x = Integer({0})", ["1"]), ("x = SecretInteger(Input({0}, {1}))", ["'q'", "p"]), ("x = SecretInteger(Input(name={0}, party={1}))", ["'q'", "p"]),
+    ("x = SecretInteger({0})", ["Input('q', p)"]), ("x = Party({0})", ["'Q'"]), ("x = Party(name={0})", ["'Q'"]), ("x = [{0}, {1}]", ["1", "2"]), ("x = range({0})", ["3"]),
+    ("x = Output(value={0}, name={1}, party={2})", ["a", "'o'", "p"]), ("def g(y: {0}) -> {1}:\n        return y", ["int", "int"]), ("{0}", ["a"]),
+]
+
+POOL = ["1", "0", "-1", "a", "u", "n", "p", "l", "ll", "xs", "zz", "1.5", "'s'", "True", "None", "[]", "[1, 2]", "[a]", "[1, 'a']", "[[1]]", "l[0]", "ll[0]", "l['k']",
+        "'a' - 1", "a + 's'", "zz + 1", "a < u", "(a < u)", "1 < 2", "(a < u).if_else(a, u)", "helper(a, 1)", "helper", "nada_main", "str", "int", "list[int]", "SecretInteger",
+        "range(3)", "range(n)", "Integer(2)", "-a", "not 1", "(1, 2)", "{1: 2}", "lambda: 1", "f'{a}'", "...", "x", "i", "a.b", "a if a else u", "sum(xs)", "str(1)",
+        "Input('r', p)", "Party('R')", "Output(a, 'o', p)", "print('EXECUTED')", "'print(1)'", "__import__('os')"]
+
+
+def grammar_texts(rng, extra):
+    out = []
+    for tpl, dflt in TEMPLATES:
+        for h in range(len(dflt)):
+            for e in POOL:
+                fill = list(dflt)
+                fill[h] = e
+                out.append((f"grammar:{tpl[:24]}@{h}:{e[:16]}", PRELUDE.replace("BODY", tpl.format(*fill))))
+    for k in range(extra):
+        tpl, dflt = rng.choice(TEMPLATES)
+        tpl2, dflt2 = rng.choice(TEMPLATES)
+        body = tpl.format(*[rng.choice(POOL) for _ in dflt]) + "\n    " + tpl2.format(*[rng.choice(POOL) for _ in dflt2])
+        out.append((f"grammar-random-{k}", PRELUDE.replace("BODY", body)))
+    return out
+
+
 def all_texts(seed, tier):
     rng = random.Random(seed)
-    t = edge_texts() + hole_texts() + mutations(rng, 60 if tier == "quick" else 2000)
+    t = edge_texts() + hole_texts() + mutations(rng, 60 if tier == "quick" else 2000) + grammar_texts(rng, 100 if tier == "quick" else 4000)
     return t
